@@ -209,7 +209,7 @@ class Monitors:
             # (a cancelled Task's time-out timer, a cancelled Wait): "holds no per-execution state (... timers)"
             if per and not running and not any(b.queues.values()) and not b.unacked and not inst.td.pending_requests and not inst.td.orphaned_responses:
                 left = [t for t in b.timers if not inst.is_heartbeat(t) and getattr(t[2], "__name__", "") not in ("handle_orphaned_responses",)
-                        and "heartbeat" not in getattr(t[2], "__qualname__", "")]
+                        and "heartbeat" not in getattr(t[2], "__qualname__", "") and not getattr(t[2], "__name__", "").startswith("harness_")]
                 delay = [t for t in left if getattr(t[2], "__qualname__", "").endswith("_delegate")]
                 other = [t for t in left if t not in delay]
                 if other:
